@@ -1,2 +1,53 @@
-(* C14 - theorems follow in this commit series *)
-From TW Require Import Bytes.
+(* C14 - rendering is deterministic: the result does not depend on the order in which a Go map
+   presents its entries.  In the model a Go map is an association list with distinct keys and a
+   presentation order is any permutation of it.  Every consumer that iterates a map in the code
+   (EnvFromMap, Obj.String / Dump, object literals, component arguments, checkUndefinedInsert,
+   parsePrograms) sorts the keys first; the theorems say the results are EQUAL for any two
+   presentations.  That the code sorts at these sites (and iterates maps nowhere else on a
+   render path) is what the repetition / fresh-process runs of the check observe. *)
+From Coq Require Import String Sorting.Permutation.
+From TW Require Import Bytes Values Ast Builtins Eval Api Order.
+
+Theorem C14_sort_is_presentation_independent {A} (m1 m2 : list (bytes * A)) :
+  NoDup (map fst m1) -> Permutation m1 m2 -> asort m1 = asort m2.
+Proof. exact (asort_order_independent m1 m2). Qed.
+Print Assumptions C14_sort_is_presentation_independent.
+
+Theorem C14_data_binding cx p d1 d2 :
+  NoDup (map fst d1) -> Permutation d1 d2 -> render_program cx p d1 = render_program cx p d2.
+Proof. exact (render_data_order_independent cx p d1 d2). Qed.
+Print Assumptions C14_data_binding.
+
+Theorem C14_object_printing m1 m2 :
+  NoDup (map fst m1) -> Permutation m1 m2 -> value_string (VObj m1) = value_string (VObj m2).
+Proof. exact (object_print_order_independent m1 m2). Qed.
+Print Assumptions C14_object_printing.
+
+Theorem C14_object_literal cx fuel en ln p1 p2 :
+  NoDup (map fst p1) -> Permutation p1 p2 ->
+  eval_expr cx fuel en (EObj ln p1) = eval_expr cx fuel en (EObj ln p2).
+Proof. exact (object_literal_order_independent cx fuel en ln p1 p2). Qed.
+Print Assumptions C14_object_literal.
+
+Theorem C14_component_arguments cx fuel en ln cid name l1 p1 p2 slots block :
+  NoDup (map fst p1) -> Permutation p1 p2 ->
+  eval_stmt cx fuel en (SComponent ln cid name (Some (EObj l1 p1)) slots block) =
+  eval_stmt cx fuel en (SComponent ln cid name (Some (EObj l1 p2)) slots block).
+Proof. exact (component_args_order_independent cx fuel en ln cid name l1 p1 p2 slots block). Qed.
+Print Assumptions C14_component_arguments.
+
+Theorem C14_first_undefined_insert (i1 i2 : list (bytes * insert_rec)) reserves :
+  NoDup (map fst i1) -> Permutation i1 i2 ->
+  undefined_insert (asort i1) reserves = undefined_insert (asort i2) reserves.
+Proof. exact (undefined_insert_order_independent i1 i2 reserves). Qed.
+Print Assumptions C14_first_undefined_insert.
+
+Theorem C14_first_faulty_file fs cfg (f1 f2 : list (bytes * bytes)) :
+  NoDup (map fst f1) -> Permutation f1 f2 ->
+  load_all fs cfg (asort f1) = load_all fs cfg (asort f2).
+Proof. exact (load_order_independent fs cfg f1 f2). Qed.
+Print Assumptions C14_first_faulty_file.
+
+Example C14_example :
+  asort [(bs "b", 2); (bs "a", 1); (bs "c", 3)] = asort [(bs "c", 3); (bs "b", 2); (bs "a", 1)].
+Proof. exact order_example. Qed.
